@@ -421,3 +421,73 @@ def rule_fmt_variants(cx, tier):
                           + (" (it falls into a wildcard arm)" if wildcard else ""), fn.file, line))
     r.sample({"fn": fn.qual, "match_line": line, "arms_cover": len(names), "of": len(variants), "wildcard": wildcard})
     return r
+
+
+# ---------------------------------------------------------------------------------------------
+# R-COLUMN-BYTES (C06, C11): a span column is not a byte offset
+
+def rule_column_bytes(cx, tier):
+    r = RuleResult("R-COLUMN-BYTES", "`Position.column` counts characters / display columns (the lexer advances it by "
+                                     "`width()` and by character counts), so it never reaches the bounds of a `str` slice "
+                                     "as a byte offset: slicing the source at line_offset + column cuts at the wrong byte "
+                                     "-- or inside a character, which panics -- whenever a multi-byte character precedes "
+                                     "it on the line")
+    from .narrow import Sym, leaves_of, _short
+    F = cx.F
+    # producer side: how the lexer advances columns
+    n_width = n_bytes = 0
+    for fn in F.fns.values():
+        if fn.crate.uname != "koto_lexer" or fn.derived:
+            continue
+        sym = None
+        for b in fn.blocks:
+            if b.cleanup:
+                continue
+            for st in b.stmts:
+                if st[0] == "a" and place_fields(st[1]) and place_fields(st[1])[-1] == "column" and st[2][0] == "use":
+                    sym = sym or Sym(cx, fn)
+                    ls = leaves_of(sym.expr(st[2][1]))
+                    if any("width(" in x or "char_count" in x or "count(" in x for x in ls):
+                        n_width += 1
+                    if any("len_utf8" in x or "char_bytes" in x for x in ls):
+                        n_bytes += 1
+    r.analysed = {"lexer_column_updates_from_width_or_char_count": n_width, "lexer_column_updates_from_byte_counts": n_bytes}
+    require(n_width >= 3, "R-COLUMN-BYTES: the lexer's column updates from width()/char counts were not found "
+                          "(column semantics changed? re-read the rule)")
+    n = 0
+    for fn in F.fns.values():
+        if fn.derived or not fn.crate.uname.startswith("koto") or fn.crate.uname == "koto_lexer":
+            continue
+        sym = None
+        du = cx.du(fn)
+        for c in fn.calls():
+            last = (c.pretty or c.short or "").rsplit("::", 1)[-1]
+            if last not in ("index", "index_mut", "get", "get_mut", "get_unchecked", "split_at", "is_char_boundary") or \
+                    len(c.args) < 2:
+                continue
+            t0 = fn.crate.tstr(c.arg_ty(0))
+            if not ("str" in t0.split("<")[0] or "String" in t0 or t0.endswith("str")):
+                continue
+            n += 1
+            r.instances += 1
+            sym = sym or Sym(cx, fn)
+            ops = [c.args[1]]
+            d = du.single_def(op_base(c.args[1])) if op_base(c.args[1]) is not None else None
+            if d is not None and d[2] == "assign" and d[3][0] == "agg":
+                ops = list(d[3][2])
+            ls = set()
+            for o in ops:
+                leaves_of(sym.expr(o), ls)
+            tainted = sorted(x for x in ls if x.endswith(".column") or ".column." in x)
+            if tainted:
+                r.nontrivial += 1
+            r.sample({"fn": fn.qual, "line": c.line, "bounds": [_short(sym.expr(o))[:60] for o in ops],
+                      "uses_column_as_byte_offset": bool(tainted)}, limit=30)
+            if tainted:
+                r.add(Finding("R-COLUMN-BYTES", fn.qual, "str-index:" + ",".join(tainted),
+                              f"the source text is sliced at a byte offset computed from {', '.join(tainted)}, which counts "
+                              f"characters / display columns: after a multi-byte character on the same line the slice is "
+                              f"shifted (formatted numbers lose digits) or cuts a character (panic: 'not a char boundary')",
+                              fn.file, c.line))
+    r.floor("str slicing sites outside the lexer", n, 8)
+    return r
